@@ -5,6 +5,7 @@ import (
 	"fmt"
 	"path/filepath"
 	"strings"
+	"syscall"
 
 	slug "github.com/hashicorp/go-slug"
 
@@ -277,7 +278,39 @@ func rtPhases(which string, unpriv bool) []*fw.Phase {
 			return runRoundTrip(which, env, rtCase{Tree: t, Opts: opts})
 		},
 	}
-	return []*fw.Phase{random, modes, mtimes, defaults}
+	// a few hundred files while the process may only hold 64 descriptors:
+	// nothing that is opened per entry may stay open until the end
+	manyFiles := &fw.Phase{
+		Name: "many-files-under-a-low-descriptor-limit" + suffix, Chroot: true, Unpriv: unpriv, Exhaustive: true,
+		N: func(string) int { return len(allPackOpts) },
+		Run: func(env *fw.Env, idx int) fw.Result {
+			var t gen.TreeSpec
+			for d := 0; d < 6; d++ {
+				t.Nodes = append(t.Nodes, gen.NodeSpec{Path: fmt.Sprintf("d%d", d), Kind: "dir", Mode: 0755, Mtime: 1500000000})
+				for i := 0; i < 60; i++ {
+					t.Nodes = append(t.Nodes, gen.NodeSpec{Path: fmt.Sprintf("d%d/f%02d.tf", d, i), Kind: "file", Mode: 0644, Content: fmt.Sprint(d, i), Mtime: 1500000000 + int64(i)})
+				}
+				t.Nodes = append(t.Nodes, gen.NodeSpec{Path: fmt.Sprintf("d%d/l", d), Kind: "link", Target: "f00.tf"})
+			}
+			var old syscall.Rlimit
+			if err := syscall.Getrlimit(syscall.RLIMIT_NOFILE, &old); err != nil {
+				return fw.Result{Verdict: fw.Inconclusive, Msg: "getrlimit: " + err.Error()}
+			}
+			low := old
+			low.Cur = 64
+			if err := syscall.Setrlimit(syscall.RLIMIT_NOFILE, &low); err != nil {
+				return fw.Result{Verdict: fw.Inconclusive, Msg: "setrlimit: " + err.Error()}
+			}
+			defer syscall.Setrlimit(syscall.RLIMIT_NOFILE, &old)
+			r := runRoundTrip(which, env, rtCase{Tree: t, Opts: allPackOpts[idx%len(allPackOpts)]})
+			if m, ok := r.Case.(map[string]interface{}); ok {
+				m["tree"] = "6 directories x 60 files + 1 link each"
+				m["descriptor_limit"] = 64
+			}
+			return r
+		},
+	}
+	return []*fw.Phase{random, modes, mtimes, defaults, manyFiles}
 }
 
 func init() {
